@@ -12,3 +12,12 @@ func dumpProgs(n int) {
 		os.WriteFile(fmt.Sprintf("/tmp/gp/%s.nas", ps[0].Name), ps[0].Source(), 0644)
 	}
 }
+
+// dumpPool writes the C10 pool of the given tier (quick: 30 generated programs) to /tmp/gp.
+func dumpPool(nGen int) {
+	pool := buildPool(baseSeedFromEnv(), nGen, 200, verifDir()+"/corpus")
+	for _, pp := range pool {
+		os.WriteFile(fmt.Sprintf("/tmp/gp/%s.nas", pp.P.Name), pp.Src, 0644)
+	}
+	fmt.Println(len(pool), "programs")
+}
